@@ -6,7 +6,7 @@
 # For every string s the driver runs, against the reference (s fed WHOLE with
 # the canonical protocol):
 #   chunk   every chunking (all 2^(n-1) for n <= max-all, else byte-at-a-time,
-#           every 1-cut, every 2-cut, fixed sizes 2,3,4,5,7)
+#           every 1-cut, every 2-cut (n <= 64), fixed sizes 2,3,4,5,7)
 #   query   byte-at-a-time with every pure query before/after every byte; the
 #           queries must not change anything they report
 #   prefix  for every k: the observation (status, has-more, where, state) and the
